@@ -645,6 +645,53 @@ def r5(prog, rep):
                         return True
         return False
 
+    def core(e: ast.AST, before: int, depth=0):
+        """follow a name to its last definition and strip array constructors: np.array(X, ...) / np.asarray / np.fromiter / list / tuple -> X"""
+        while depth < 6:
+            depth += 1
+            if isinstance(e, ast.Name):
+                d_ = last_def_(e.id, before)
+                if d_ is None:
+                    return e
+                e = d_
+                continue
+            if isinstance(e, ast.Call) and (dotted(e.func) or "").split(".")[-1] in ("array", "asarray", "fromiter", "list", "tuple") and e.args:
+                e = e.args[0]
+                continue
+            break
+        return e
+
+    def aligned_rule(c: ast.Call, idx_arg: ast.AST, val_arg: ast.AST, what: str):
+        """The i-th value handed to HiGHS belongs to the i-th column index: when the index array is sorted(D) of a dict D (column -> value), the
+        values are read from D *through the same index sequence* ([D[i] for i in idxs]); D.values() is in insertion order, not in sorted order."""
+        key = f"SolverWrapper._apply_pending_bound_updates:highs:{what}-aligned"
+        ic, vc = core(idx_arg, c.lineno), core(val_arg, c.lineno)
+        if not (isinstance(ic, ast.Call) and dotted(ic.func) == "sorted" and ic.args and isinstance(ic.args[0], ast.Name)):
+            if isinstance(ic, ast.Call) and isinstance(ic.func, ast.Attribute) and ic.func.attr == "keys" and isinstance(vc, ast.Call) and \
+                    isinstance(vc.func, ast.Attribute) and vc.func.attr == "values" and norm(ic.func.value) == norm(vc.func.value):
+                rep.ok("C12.R5", key, f"indices and values are the keys() and values() of the same dict `{norm(ic.func.value)}` (same order)", f.loc(c))
+                return
+            raise AnalysisError(f"_apply_pending_bound_updates: cannot tell how the index array `{norm(idx_arg)}` of the {what} queue is ordered")
+        D = ic.args[0].id
+        if isinstance(vc, (ast.ListComp, ast.GeneratorExp)) and len(vc.generators) == 1 and not vc.generators[0].ifs and isinstance(vc.generators[0].target, ast.Name):
+            g = vc.generators[0]
+            over = core(g.iter, c.lineno)
+            same_seq = norm(g.iter) == norm(idx_arg) or norm(over) == norm(ic)
+            elt_ok = isinstance(vc.elt, ast.Subscript) and norm(vc.elt.value) == D and norm(vc.elt.slice) == g.target.id
+            if same_seq and elt_ok:
+                rep.ok("C12.R5", key, f"values are read from `{D}` through the index array itself (`{norm(vc)[:60]}`)", f.loc(c))
+                return
+            if elt_ok and not same_seq:
+                rep.violation("C12.R5", key, f"the values `{norm(vc)[:70]}` run over `{norm(g.iter)}`, the column indices over `{norm(ic)}`: the i-th value does not belong to the "
+                              "i-th column", f.loc(c))
+                return
+        if any(isinstance(n, ast.Call) and isinstance(n.func, ast.Attribute) and n.func.attr == "values" and norm(n.func.value) == D for n in ast.walk(vc)):
+            rep.violation("C12.R5", key, f"the column indices are `{norm(ic)}` (increasing) but the values are `{norm(vc)[:60]}` (insertion order of the dict): whenever variables "
+                          "are queued in another order than their column indices, each queued value is written to a different column (fix x[2]=5 then x[1]=7: x[1] fixed to 5, "
+                          "x[2] to 7)", f.loc(c))
+            return
+        raise AnalysisError(f"_apply_pending_bound_updates: cannot tell whether the values `{norm(val_arg)}` of the {what} queue are aligned with `{norm(idx_arg)}`")
+
     for c in ccb:
         if len(c.args) != 4:
             raise AnalysisError("changeColsBounds call without 4 positional arguments")
@@ -669,6 +716,7 @@ def r5(prog, rep):
             else:
                 rep.violation("C12.R5", key, f"fix queue writes lower from `{norm(c.args[2])}` and upper from `{norm(c.args[3])}` (must both be the queued values)", f.loc(c))
             n_ok += 1
+            aligned_rule(c, c.args[1], c.args[2], "fix")
             # Highs.changeColsBounds(num, set, ...): a set with duplicate entries is rejected as a whole (nothing is changed)
             keyd = "SolverWrapper._apply_pending_bound_updates:highs:fix-index-set"
             df = duplicate_free(c.args[1], c.lineno)
@@ -684,6 +732,8 @@ def r5(prog, rep):
     # a variable fixed in the same batch keeps its fixed value as lower bound: the lower bounds written derive from both queues
     lb_writes = [c for c in calls if isinstance(c.func, ast.Attribute) and c.func.attr in ("changeColsLower", "changeColsBounds")
                  and len(c.args) >= 3 and "self._pending_lb_vals" in reaches(c.args[2])]
+    for c in lb_writes:
+        aligned_rule(c, c.args[1], c.args[2], "lower-bound")
     keyi = "SolverWrapper._apply_pending_bound_updates:highs:fix-then-lower-bound"
     if lb_writes:
         if all("self._pending_fix_vals" in reaches(c.args[2]) for c in lb_writes):
